@@ -43,9 +43,13 @@ func (b block[T]) begin() model.Addr { return b.seq[0].Begin() }
 // end returns exclusive end address of b.
 func (b block[T]) end() model.Addr { return b.begin() + b.length }
 
+// last returns address of the last byte of b. Unlike end, it doesn't wrap
+// around for a block ending at the very end of the address space.
+func (b block[T]) last() model.Addr { return b.begin() + b.length - 1 }
+
 // Containts check if addr is inside the basic block.
 func (b block[T]) contains(addr model.Addr) bool {
-	return addr >= b.begin() && addr < b.end()
+	return addr >= b.begin() && addr <= b.last()
 }
 
 // split creates 2 new basic blocks consisting of instructions of b, but
@@ -84,7 +88,7 @@ type blocks[T Instruction] []block[T]
 // split splits block containing addr into 2 blocks using Split(addr) and
 // modifies blocks to contain both new blocks instead of the one splitted.
 func (bs *blocks[T]) split(addr model.Addr) error {
-	idx := sort.Search(len(*bs), func(i int) bool { return (*bs)[i].end() > addr })
+	idx := sort.Search(len(*bs), func(i int) bool { return (*bs)[i].last() >= addr })
 	if idx == len(*bs) || addr < (*bs)[idx].begin() {
 		return fmt.Errorf("no basic block with address 0x%x found", addr)
 	}
